@@ -37,6 +37,14 @@ theorem readSkip_step {d : B} {p n : Nat} {rest : B} (h : At d p (zeros n ++ res
   obtain ⟨e, h'⟩ := readN_step h (length_zeros n)
   exact ⟨by simp only [readSkip, e], h'⟩
 
+theorem readSized_at {d : B} {p : Nat} {bs : B} (h : At d p bs) : readSized bs.length d p = .ok (bs, p + bs.length) := by
+  unfold readSized readPy
+  have hn : ¬ ((bs.length : Int) < 0) := by omega
+  rw [if_neg hn]
+  simp only [Int.toNat_natCast]
+  rw [if_neg (not_overflows_of_le (by have := h.bound; omega))]
+  exact readUpTo_at h
+
 theorem length_sT (w : Nat) (z : Int) : (sT w z).length = w := length_beBytes _ _
 
 /-- the widths `struct` has: `b`, `h`, `i`, `q` -/
